@@ -181,4 +181,74 @@ theorem C03_delivery_exact_runOps_partial (s : Server) (hw : WF s) (hcd : ConnDi
   let h := C03_delivery_exact_state_partial s hw hcd (hx ▸ idxOK_runOps iops) pk hig ht hq hne hnh hsh n
   ⟨h.1, h.2.1⟩
 
+/-! ## … in every history without schedule ops
+
+`SeqOps`: connects, inbound packets (SUBSCRIBE, UNSUBSCRIBE, PUBLISH, acks, DISCONNECT), dropped connections,
+housekeeping ticks and the inline API — everything except the four schedule ops that park a handler. -/
+
+/-- **C03 as stated** (kept visible; NOT proved — it is false of the model, see `C03_delivery_full_false_F03`):
+    in any history, for every application message, a PUBLISH carrying it is written to connection `n` exactly when
+    `n` is a connected client holding at least one matching subscription that it may read and whose No Local option
+    does not exclude it (`EntitledSpec`), and at most once. -/
+def C03_delivery_full : Prop :=
+  ∀ (caps : Caps) (ops : List Op), OpsFresh (init caps) ops →
+    ∀ (pk : Msg) (n : Nat), pk.type = 3 → pk.ignore = false →
+      ((∃ ver m me, Out.wrote n (.publish ver m me) ∈ (publishToSubscribers (run (init caps) ops) pk).2) ↔
+        EntitledSpec (run (init caps) ops) pk n) ∧
+      ((publishToSubscribers (run (init caps) ops) pk).2.filterMap pubConn).count n ≤ 1
+
+/-- **Step 3 — `C03_delivery_exact_seq`, restricted (hence `_partial`).**  For every history `ops` without schedule
+    ops from `init caps` (connection numbers fresh), `s := run (init caps) ops`, and every application message `pk`
+    of QoS 0 whose topic no shared subscription of the index matches:
+
+    1. a PUBLISH is written to connection `n` **iff** `EntitledF03 s pk n` — `n` is the connection of a client
+       object registered under its id, open, not inline, peer not gone; the index holds a plain subscription of that
+       id whose filter `specMatch`es the topic; the id may read the topic; and it is not the case that the id is the
+       publisher and some matching subscription of it has No Local (the merge of F03);
+    2. "the index holds a matching plain subscription of the id" is equivalent to "the registered session lists a
+       plain filter that `specMatch`es the topic" (`EntitledSession`; `IndexSync` and `IndexSyncPlain`);
+    3. connection `n` is written at most one PUBLISH;
+    4. every output is an inline delivery or a copy of the message (payload, QoS 0, origin).
+
+    Excluded: shared subscriptions matching the topic (`hsh`), QoS > 0 (in-flight limit, packet identifiers, send
+    quota: `hq`), topic aliases as far as the topic BYTES of the copy go (conclusion 4 does not mention them),
+    schedule ops (`SeqOps`), and the No Local merge (1. states what the model does, not what C03 asks: F03). -/
+theorem C03_delivery_exact_seq_partial (caps : Caps) (ops : List Op) (hseq : SeqOps ops)
+    (hf : OpsFresh (init caps) ops) (pk : Msg) (hig : pk.ignore = false) (ht : pk.type = 3) (hq : pk.qos = 0)
+    (hne : pk.topic ≠ []) (hnh : ∀ t ∈ splitLevels pk.topic, t ≠ [hash])
+    (hsh : (subscribers (run (init caps) ops).topics pk.topic).shared = []) (n : Nat) :
+    ((∃ ver m me, Out.wrote n (.publish ver m me) ∈ (publishToSubscribers (run (init caps) ops) pk).2) ↔
+      EntitledF03 (run (init caps) ops) pk n) ∧
+    (EntitledF03 (run (init caps) ops) pk n ↔ EntitledSession (run (init caps) ops) pk n) ∧
+    ((publishToSubscribers (run (init caps) ops) pk).2.filterMap pubConn).count n ≤ 1 ∧
+    ∀ x ∈ (publishToSubscribers (run (init caps) ops) pk).2,
+      (∃ id, x = Out.inline id pk.topic pk.payload) ∨ IsCopy pk x := by
+  have hw := WF_run caps ops hf
+  have hs := SyncInv_run caps ops hf (hseq.schedOK caps ops hf)
+  have hcd := ConnDistinct_run_seq caps ops hseq hf
+  obtain ⟨h1, h2, h3⟩ := C03_delivery_exact_state_partial _ hw hcd hs.idx pk hig ht hq hne hnh hsh n
+  exact ⟨h1, entitledF03_iff_session hs hw pk n, h2, h3⟩
+
+/-- outside the F03 situation (the publisher holds a matching subscription with No Local AND a matching one without)
+    the recipients are exactly those C03 names -/
+theorem C03_delivery_exact_seq_spec_partial (caps : Caps) (ops : List Op) (hseq : SeqOps ops)
+    (hf : OpsFresh (init caps) ops) (pk : Msg) (hig : pk.ignore = false) (ht : pk.type = 3) (hq : pk.qos = 0)
+    (hne : pk.topic ≠ []) (hnh : ∀ t ∈ splitLevels pk.topic, t ≠ [hash])
+    (hsh : (subscribers (run (init caps) ops).topics pk.topic).shared = [])
+    (hmix : ¬ MixedNoLocal (run (init caps) ops) pk) (n : Nat) :
+    ((∃ ver m me, Out.wrote n (.publish ver m me) ∈ (publishToSubscribers (run (init caps) ops) pk).2) ↔
+      EntitledSpec (run (init caps) ops) pk n) ∧
+    ((publishToSubscribers (run (init caps) ops) pk).2.filterMap pubConn).count n ≤ 1 := by
+  obtain ⟨h1, _, h3, _⟩ := C03_delivery_exact_seq_partial caps ops hseq hf pk hig ht hq hne hnh hsh n
+  exact ⟨h1.trans (entitledF03_iff_spec hmix n), h3⟩
+
+/-- soundness holds without the F03 proviso: whoever is written the message is entitled in the sense of C03 -/
+theorem C03_delivery_sound_seq_partial (caps : Caps) (ops : List Op) (hseq : SeqOps ops)
+    (hf : OpsFresh (init caps) ops) (pk : Msg) (hig : pk.ignore = false) (ht : pk.type = 3) (hq : pk.qos = 0)
+    (hne : pk.topic ≠ []) (hnh : ∀ t ∈ splitLevels pk.topic, t ≠ [hash])
+    (hsh : (subscribers (run (init caps) ops).topics pk.topic).shared = []) (n : Nat)
+    (h : ∃ ver m me, Out.wrote n (.publish ver m me) ∈ (publishToSubscribers (run (init caps) ops) pk).2) :
+    EntitledSpec (run (init caps) ops) pk n :=
+  ((C03_delivery_exact_seq_partial caps ops hseq hf pk hig ht hq hne hnh hsh n).1.mp h).spec
+
 end Mochi.Broker
